@@ -11,7 +11,7 @@ from ..cfg import cfg_of
 from ..model import AnalysisError, call_name, calls_in, dotted, norm, walk_no_nested
 from .. import bits, normal, rules
 from .. import conds as cnd
-from . import _block
+from . import _block, _codec
 
 REF = os.path.join(os.path.dirname(os.path.dirname(__file__)), "reference", "e4.json")
 
@@ -98,6 +98,24 @@ def check_header(ctx):
     ctx.ob("C16.P1", uw.qualname, ok, "updated_with rebuilds the header from all fields with the given ones replaced" if ok else f"updated_with is {txt}", where=uw.where)
 
 
+REF_SPLIT = """
+def _split_blocks(cls, data, header, complete=True):
+    if cls.block_size == -1:
+        return [cls.block_type(header, data)]
+    if len(data) == 0:
+        data_blocks = [data]
+    else:
+        data_blocks = [data[i : i + cls.block_size] for i in range(0, len(data), cls.block_size)]
+    blocks = []
+    for index, block_data in enumerate(data_blocks):
+        last_block = (index + 1) == len(data_blocks)
+        if not complete and hasattr(header, "last_block"):
+            last_block = header.last_block
+        blocks.append(cls.block_type(header.updated_with(block=index + 1, last_block=last_block), block_data))
+    return blocks
+"""
+
+
 def check_split(ctx):
     repo = ctx.repo
     ref = _ref()
@@ -120,6 +138,12 @@ def check_split(ctx):
     ctx.ob("C16.T1", "SecsIBlock", ok, f"the largest possible byte sum {(bs + hl) * 255} fits the {ref['checksum_bytes']}-byte checksum field (no wrap)" if ok else f"checksum_format {cf!r} cannot hold the largest byte sum {(bs + hl) * 255}", key="checksum-capacity", where=blk.where)
     ok = norm(blk.consts["header_type"]) == "SecsIHeader" and norm(repo.cls("SecsIMessage").consts["block_type"]) == "SecsIBlock"
     ctx.ob("C16.T1", "SecsIBlock", ok, "SECS-I blocks use the SECS-I header" if ok else "SecsIBlock.header_type / SecsIMessage.block_type are not the SECS-I classes", key="types", where=blk.where)
+    # the split itself: equal to the reference model of E4 blocking (summaries), or - for another spelling - the shape rules below
+    found = _codec.signature(_codec.paths_of(ctx, f))
+    want = _codec.signature(_codec.reference_paths(REF_SPLIT))
+    if found["returns"] == want["returns"]:
+        ctx.ob("C16.P1", q, True, "the body is cut into consecutive block_size pieces (one empty block for an empty body), numbered 1..n, the end bit on the last piece (or taken from a received header), each block header derived from the message header", key="split-model", where=f.where)
+        return
     # partition
     parts = rules.find_partitions(fn)
     if parts:
